@@ -235,6 +235,8 @@ pub struct Outcome {
     /// result of the grammar itself before the implicit `end()`: end position if it matched a prefix
     pub prefix_end: Option<usize>,
     pub prefix_out: Option<Val>,
+    pub prefix_em: Vec<MEmit>,
+    pub prefix_st: St,
 }
 
 pub fn run(g: &G, w: &[char], st0: St, budget: u64) -> Outcome {
@@ -262,9 +264,13 @@ pub fn run_opts(g: &G, w: &[char], st0: St, budget: u64, wrap: bool) -> Outcome 
     let mut st_out = st0;
     let mut prefix_end = None;
     let mut prefix_out = None;
+    let mut prefix_em = vec![];
+    let mut prefix_st = st0;
     if let R::Ok { v, end, st, em } = r {
         prefix_end = Some(end);
         prefix_out = Some(v.clone());
+        prefix_em = em.clone();
+        prefix_st = st;
         // implicit end()
         if end == w.len() {
             out = Some(v);
@@ -284,6 +290,8 @@ pub fn run_opts(g: &G, w: &[char], st0: St, budget: u64, wrap: bool) -> Outcome 
         pathological: m.over,
         prefix_end,
         prefix_out,
+        prefix_em,
+        prefix_st,
     }
 }
 
@@ -353,9 +361,9 @@ impl<'a> Model<'a> {
 
     /// Items of a repetition-like node (`Rep`, `Sep`, `CtxRep`): `Some((items, end, st, em))` or `None` on failure.
     /// `limit` = additional cap on the number of items requested by the consumer (`collect_exactly`).
-    fn ev_iter(&mut self, g: &'a G, p: usize, st: St, cx: &Val, limit: Option<usize>) -> Option<(Vec<(Val, usize, usize)>, usize, St, Vec<MEmit>, bool)> {
+    fn ev_iter(&mut self, g: &'a G, p: usize, st: St, cx: &Val, limit: Option<usize>) -> Option<(Vec<(Val, usize, usize, usize)>, usize, St, Vec<MEmit>, bool)> {
         // returns (items with their start positions, end, state, emissions, stopped_by_bound)
-        let mut items: Vec<(Val, usize, usize)> = vec![];
+        let mut items: Vec<(Val, usize, usize, usize)> = vec![];
         let mut em: Vec<MEmit> = vec![];
         let mut q = p;
         let mut s = st;
@@ -388,7 +396,7 @@ impl<'a> Model<'a> {
                                 self.over = true;
                                 return None;
                             }
-                            items.push((v, q, end));
+                            items.push((v, q, end, q));
                             q = end;
                             s = st;
                             em.extend(e);
@@ -464,7 +472,7 @@ impl<'a> Model<'a> {
                             }
                             em.extend(sep_em);
                             em.extend(e);
-                            items.push((v, after_sep.0, end));
+                            items.push((v, after_sep.0, end, before_sep.0));
                             q = end;
                             s = st;
                         }
@@ -813,10 +821,10 @@ impl<'a> Model<'a> {
                         let flav = if g.op == CtxRep { Flav::Vec } else { g.p.flav };
                         let v = match flav {
                             Flav::Unit => Val::Unit,
-                            Flav::Vec | Flav::Arr2 | Flav::Arr3 => Val::Seq(items.into_iter().map(|(v, _, _)| v).collect()),
-                            Flav::Str => Val::Str(items.iter().map(|(v, _, _)| v.first_char()).collect()),
+                            Flav::Vec | Flav::Arr2 | Flav::Arr3 => Val::Seq(items.into_iter().map(|(v, _, _, _)| v).collect()),
+                            Flav::Str => Val::Str(items.iter().map(|(v, _, _, _)| v.first_char()).collect()),
                             Flav::Count | Flav::CountM => Val::Num(items.len() as i64),
-                            Flav::Enum => Val::Seq(items.into_iter().enumerate().map(|(i, (v, _, _))| Val::pair(Val::Num(i as i64), v)).collect()),
+                            Flav::Enum => Val::Seq(items.into_iter().enumerate().map(|(i, (v, _, _, _))| Val::pair(Val::Num(i as i64), v)).collect()),
                         };
                         R::Ok { v, end, st, em }
                     }
@@ -836,9 +844,9 @@ impl<'a> Model<'a> {
                     }
                     Some((items, end, st, e, _)) => {
                         em.extend(e);
-                        for (x, _, item_end) in items.into_iter() {
+                        for (x, _, item_end, _) in items.into_iter() {
                             acc = if g.p.ok {
-                                Val::FoldW { lo: p, hi: item_end, acc: Box::new(acc), x: Box::new(x) }
+                                Val::FoldW { lo: p, lo2: p, hi: item_end, acc: Box::new(acc), x: Box::new(x) }
                             } else {
                                 Val::pair(acc, x)
                             };
@@ -856,9 +864,11 @@ impl<'a> Model<'a> {
                     R::Ok { v, end, st, em: e } => {
                         em.extend(e);
                         let mut acc = v;
-                        for (x, start, _) in items.into_iter().rev() {
+                        for (x, start, _, step_start) in items.into_iter().rev() {
                             acc = if g.p.ok {
-                                Val::FoldW { lo: start, hi: end, acc: Box::new(acc), x: Box::new(x) }
+                                // the callback's span starts where the step that produced the item started
+                                // (before its separator); the item's own start is accepted as well
+                                Val::FoldW { lo: step_start, lo2: start, hi: end, acc: Box::new(acc), x: Box::new(x) }
                             } else {
                                 Val::pair(x, acc)
                             };
@@ -956,6 +966,17 @@ impl<'a> Model<'a> {
                         }
                     }
                     self.fail(e);
+                }
+                r
+            }
+            ExtWrap => {
+                let r = self.ev(&k[0], p, st, cx);
+                if matches!(r, R::Fail) {
+                    // `inp.parse(..)` hands the whole pending error to the extension, which reports it at its start
+                    if let Some(mut e) = self.pend.take() {
+                        e.pos = p;
+                        self.fail(e);
+                    }
                 }
                 r
             }
